@@ -137,7 +137,7 @@ def random_op(rng, files, weights):
 
 BASE_WEIGHTS = {"write": 6, "delete": 2, "rename": 3, "swap": 2, "touch": 1, "edit": 2, "set_yml": 1, "set_gitignore": 1,
                 "set_cli": 1, "set_version": 1, "identity": 1.5, "cache_fault": 0.0, "clock": 1, "scan": 5,
-                "report": 0.7, "findings": 0.7, "set_git": 0.4, "set_spelling": 0.4, "set_env": 0.3}
+                "report": 0.7, "findings": 0.7, "set_git": 1.0, "set_spelling": 0.4, "set_env": 0.6}
 
 # ---------------------------------------------------------------------------
 # small-scope enumeration (thorough tier): all histories of length <= 3
